@@ -1,5 +1,5 @@
 (* Proofs about the schema printer model (C12). *)
-From PyGql Require Import Schema.SdlPrint Spec.SdlRoundtripSpec.
+From PyGql Require Import Spec.SdlSpec Schema.SdlPrint Spec.SdlRoundtripSpec.
 From Coq Require Import Lia.
 
 (* ------------------------------------------------------------------ *)
@@ -119,7 +119,7 @@ Qed.
 Definition roundtrips (E : env) (k : nat) (t : tref) (v : pv) : Prop :=
   forall fuel, k <= fuel ->
     exists n, node_of_value fuel E v t = Ok n
-              /\ forall eager stack fuel', k <= fuel' -> coerce fuel' eager E stack t n = Ok v.
+              /\ forall eager fuel', k <= fuel' -> coerce fuel' eager E [] t n = Ok v.
 
 Lemma roundtrips_mono E k k' t v : k <= k' -> roundtrips E k t v -> roundtrips E k' t v.
 Proof.
@@ -148,6 +148,22 @@ Qed.
 
 Ltac ksimpl := with_strategy opaque [mem_str alookup scalar_node coerce_scalar enum_name_of] simpl.
 
+Lemma omap_map_ok' {A B} (f : A -> outcome B) (g : A -> B) l :
+  (forall x, In x l -> f x = Ok (g x)) -> omap f l = Ok (map g l).
+Proof.
+  induction l as [|x l IH]; intros H; simpl; [reflexivity|].
+  rewrite (H x (or_introl eq_refl)); simpl. rewrite IH; [reflexivity|].
+  intros y Hy; apply H; right; exact Hy.
+Qed.
+
+Lemma omap_map2' {A B C} (f : B -> outcome C) (pre : A -> B) (dec : A -> C) l :
+  (forall x, In x l -> f (pre x) = Ok (dec x)) -> omap f (map pre l) = Ok (map dec l).
+Proof.
+  induction l as [|x l IH]; intros H; simpl; [reflexivity|].
+  rewrite (H x (or_introl eq_refl)); simpl. rewrite IH; [reflexivity|].
+  intros y Hy; apply H; right; exact Hy.
+Qed.
+
 (* ---- input objects ---------------------------------------------------- *)
 Section Dict.
   Variables (E : env) (kvs : list (str * pv)) (K f : nat).
@@ -156,8 +172,8 @@ Section Dict.
   Definition field_nodes (fd : ifield) (l : list (name * value * loc)) : Prop :=
     match alookup (if_py fd) kvs with
     | Some x => exists nx, l = [(Name (if_name fd) None, nx, None)]
-                           /\ forall eager stack fuel', K <= fuel' ->
-                                coerce fuel' eager E stack (if_type fd) nx = Ok x
+                           /\ forall eager fuel', K <= fuel' ->
+                                coerce fuel' eager E [] (if_type fd) nx = Ok x
     | None => l = []
     end.
 
@@ -179,7 +195,7 @@ Section Dict.
     - exists []; split; [reflexivity|constructor].
     - destruct IH as [fns [Ho HF]]; [intros; apply H; right; assumption|].
       destruct (H fd (or_introl eq_refl)) as [Hsome Hnone].
-      unfold node_step at 1. cbn [omap]. unfold node_step at 1.
+      cbn [omap]. unfold node_step at 1.
       destruct (alookup (if_py fd) kvs) as [x|] eqn:Hl.
       + destruct (Hsome x eq_refl f Hf) as [nx [Hn Hc]].
         exists ([(Name (if_name fd) None, nx, None)] :: fns); split.
@@ -204,7 +220,7 @@ Section Dict.
     induction 1 as [|fd l fs fns Hr HF IH]; intros Hni; [reflexivity|].
     cbn [concat]. rewrite obj_lookup_app, IH by (intros Hc; apply Hni; right; exact Hc).
     unfold field_nodes in Hr. destruct (alookup (if_py fd) kvs).
-    - destruct Hr as [nx [-> _]]. cbn [obj_lookup].
+    - destruct Hr as [nx [-> _]]. cbn [obj_lookup n_val].
       destruct (str_eqb_spec nm (if_name fd)) as [->|]; [|reflexivity].
       exfalso; apply Hni; left; reflexivity.
     - subst l; reflexivity.
@@ -215,8 +231,8 @@ Section Dict.
     forall fd, In fd fs ->
       match alookup (if_py fd) kvs with
       | Some x => exists nx, obj_lookup (if_name fd) (concat fns) = Some nx
-                             /\ forall eager stack fuel', K <= fuel' ->
-                                  coerce fuel' eager E stack (if_type fd) nx = Ok x
+                             /\ forall eager fuel', K <= fuel' ->
+                                  coerce fuel' eager E [] (if_type fd) nx = Ok x
       | None => obj_lookup (if_name fd) (concat fns) = None
       end.
   Proof.
@@ -226,7 +242,7 @@ Section Dict.
     destruct Hin as [<-|Hin].
     - rewrite (obj_lookup_absent fs fns (if_name fd0) HF Hni).
       unfold field_nodes in Hr. destruct (alookup (if_py fd0) kvs).
-      + destruct Hr as [nx [-> Hc]]. cbn [obj_lookup]. rewrite str_eqb_refl. eauto.
+      + destruct Hr as [nx [-> Hc]]. cbn [obj_lookup n_val]. rewrite str_eqb_refl. eauto.
       + subst l; reflexivity.
     - specialize (IH Hnd fd Hin).
       assert (Hne : if_name fd <> if_name fd0).
@@ -234,7 +250,7 @@ Section Dict.
       destruct (alookup (if_py fd) kvs).
       + destruct IH as [nx [Ho Hc]]. rewrite Ho. eauto.
       + rewrite IH. unfold field_nodes in Hr. destruct (alookup (if_py fd0) kvs).
-        * destruct Hr as [nx [-> _]]. cbn [obj_lookup].
+        * destruct Hr as [nx [-> _]]. cbn [obj_lookup n_val].
           destruct (str_eqb_spec (if_name fd) (if_name fd0)); [contradiction|reflexivity].
         * subst l; reflexivity.
   Qed.
@@ -259,15 +275,15 @@ Lemma step_roundtrip E (P : tref -> pv -> Prop) :
   (forall t v, P t v -> exists k, roundtrips E k t v) ->
   forall t v, conf_step E P t v -> exists k, roundtrips E k t v.
 Proof.
-  intros HP t v Hc. induction Hc.
+  intros HP t v Hconf. induction Hconf.
   - (* null *)
     exists 1; intros fuel Hf; fuel_S fuel Hf. exists (VNull None); split.
     + destruct t; simpl in *; try discriminate; reflexivity.
-    + intros eager stack f' Hf'; fuel_S f' Hf'. destruct t; simpl in *; try discriminate; reflexivity.
+    + intros eager f' Hf'; fuel_S f' Hf'. destruct t; simpl in *; try discriminate; reflexivity.
   - (* non-null *)
-    destruct IHHc as [k IH]. exists (S k); intros fuel Hf; fuel_S fuel Hf.
+    destruct IHHconf as [k IH]. exists (S k); intros fuel Hf; fuel_S fuel Hf.
     destruct (IH fuel ltac:(lia)) as [n [Hn Hc]].
-    assert (Hk := Hc false [] (S k) ltac:(lia)).
+    assert (Hk := Hc false (S k) ltac:(lia)).
     assert (Hnn : is_null n = false).
     { destruct n; try reflexivity. simpl in Hk. destruct t; simpl in *; try discriminate;
         inversion Hk; subst; congruence. }
@@ -275,14 +291,14 @@ Proof.
     { intros nm l ->; simpl in Hk; discriminate. }
     exists n; split.
     + simpl. rewrite Hn; simpl. rewrite Hnn; reflexivity.
-    + intros eager stack f' Hf'; fuel_S f' Hf'.
-      specialize (Hc eager stack f' ltac:(lia)).
+    + intros eager f' Hf'; fuel_S f' Hf'.
+      specialize (Hc eager f' ltac:(lia)).
       destruct n; simpl in *; try discriminate; try assumption.
   - (* empty list *)
     exists 2; intros fuel Hf; fuel_S fuel Hf. exists (VList [] None); split; [reflexivity|].
-    intros eager stack f' Hf'; fuel_S f' Hf'; reflexivity.
+    intros eager f' Hf'; fuel_S f' Hf'; reflexivity.
   - (* cons *)
-    destruct IHHc1 as [k1 IH1]. destruct IHHc2 as [k2 IH2].
+    destruct IHHconf1 as [k1 IH1]. destruct IHHconf2 as [k2 IH2].
     exists (S (k1 + k2)); intros fuel Hf; fuel_S fuel Hf.
     destruct (IH1 fuel ltac:(lia)) as [nx [Hnx Hcx]].
     destruct (IH2 (S fuel) ltac:(lia)) as [nl [Hnl Hcl]].
@@ -291,58 +307,58 @@ Proof.
     inversion Hnl; subst nl; clear Hnl.
     exists (VList (nx :: ns) None); split.
     + simpl. rewrite Hnx; simpl. rewrite Hns; reflexivity.
-    + intros eager stack f' Hf'; fuel_S f' Hf'.
-      specialize (Hcl eager stack (S f') ltac:(lia)). simpl in Hcl.
-      destruct (omap (coerce f' eager E stack t) ns) as [l'| | |] eqn:Hl'; simpl in Hcl; try discriminate.
+    + intros eager f' Hf'; fuel_S f' Hf'.
+      specialize (Hcl eager (S f') ltac:(lia)). simpl in Hcl.
+      destruct (omap (coerce f' eager E [] t) ns) as [l'| | |] eqn:Hl'; simpl in Hcl; try discriminate.
       inversion Hcl; subst l'.
-      simpl. rewrite (Hcx eager stack f' ltac:(lia)); simpl. rewrite Hl'; reflexivity.
+      simpl. rewrite (Hcx eager f' ltac:(lia)); simpl. rewrite Hl'; reflexivity.
   - (* String *)
     exists 1; intros fuel Hf; fuel_S fuel Hf. exists (VString s false None); split; [reflexivity|].
-    intros eager stack f' Hf'; fuel_S f' Hf'; reflexivity.
+    intros eager f' Hf'; fuel_S f' Hf'; reflexivity.
   - (* Boolean *)
     exists 1; intros fuel Hf; fuel_S fuel Hf. exists (VBool b None); split; [reflexivity|].
-    intros eager stack f' Hf'; fuel_S f' Hf'; reflexivity.
+    intros eager f' Hf'; fuel_S f' Hf'; reflexivity.
   - (* ID *)
     exists 1; intros fuel Hf; fuel_S fuel Hf.
     exists (if int_re s then VInt s None else VString s false None); split.
     + simpl. unfold scalar_node; simpl. destruct (int_re s); reflexivity.
-    + intros eager stack f' Hf'; fuel_S f' Hf'. destruct (int_re s); reflexivity.
+    + intros eager f' Hf'; fuel_S f' Hf'. destruct (int_re s); reflexivity.
   - (* Int *)
     exists 1; intros fuel Hf; fuel_S fuel Hf. exists (VInt (str_of_Z z) None); split.
     + simpl. unfold scalar_node; simpl. rewrite H; reflexivity.
-    + intros eager stack f' Hf'; fuel_S f' Hf'. simpl. unfold coerce_scalar; simpl.
+    + intros eager f' Hf'; fuel_S f' Hf'. simpl. unfold coerce_scalar; simpl.
       rewrite Z_of_str_of_Z.
       replace (int32 z) with true; [reflexivity|].
       unfold strict_int32 in H; unfold int32. lia.
   - (* Float *)
     exists 1; intros fuel Hf; fuel_S fuel Hf. exists (VFloat r None); split.
     + simpl. unfold scalar_node; simpl. rewrite H; reflexivity.
-    + intros eager stack f' Hf'; fuel_S f' Hf'. simpl. unfold coerce_scalar; simpl. rewrite H0; reflexivity.
+    + intros eager f' Hf'; fuel_S f' Hf'. simpl. unfold coerce_scalar; simpl. rewrite H0; reflexivity.
   - (* custom scalar, string that does not look like a number *)
     exists 1; intros fuel Hf; fuel_S fuel Hf.
     destruct (not_specified n H) as (N1 & N2 & N3 & N4 & N5).
     exists (VString s false None); split.
     + ksimpl. rewrite H, H0. unfold scalar_node; rewrite N1, N2, N3, N4, N5, H1, H2; reflexivity.
-    + intros eager stack f' Hf'; fuel_S f' Hf'. ksimpl; rewrite H, H0; unfold coerce_scalar;
+    + intros eager f' Hf'; fuel_S f' Hf'. ksimpl; rewrite H, H0; unfold coerce_scalar;
         rewrite N1, N2, N3, N4, N5; reflexivity.
   - (* custom scalar, float *)
     exists 1; intros fuel Hf; fuel_S fuel Hf.
     destruct (not_specified n H) as (N1 & N2 & N3 & N4 & N5).
     exists (VFloat r None); split.
     + ksimpl. rewrite H, H0. unfold scalar_node; rewrite N1, N2, N3, N4, N5; reflexivity.
-    + intros eager stack f' Hf'; fuel_S f' Hf'. ksimpl; rewrite H, H0; unfold coerce_scalar;
+    + intros eager f' Hf'; fuel_S f' Hf'. ksimpl; rewrite H, H0; unfold coerce_scalar;
         rewrite N1, N2, N3, N4, N5, H1; reflexivity.
   - (* custom scalar, boolean *)
     exists 1; intros fuel Hf; fuel_S fuel Hf.
     destruct (not_specified n H) as (H1 & H2 & H3 & H4 & H5).
     exists (VBool b None); split.
     + ksimpl. rewrite H, H0. unfold scalar_node; rewrite H1, H2, H3, H4, H5; reflexivity.
-    + intros eager stack f' Hf'; fuel_S f' Hf'. ksimpl; rewrite H, H0; unfold coerce_scalar;
+    + intros eager f' Hf'; fuel_S f' Hf'. ksimpl; rewrite H, H0; unfold coerce_scalar;
         rewrite H1, H2, H3, H4, H5; reflexivity.
   - (* enum *)
     exists 1; intros fuel Hf; fuel_S fuel Hf. exists (VEnum m None); split.
     + destruct v; try congruence; ksimpl; rewrite H, H0, H1; reflexivity.
-    + intros eager stack f' Hf'; fuel_S f' Hf'. ksimpl. rewrite H, H0, H2; reflexivity.
+    + intros eager f' Hf'; fuel_S f' Hf'. ksimpl. rewrite H, H0, H2; reflexivity.
   - (* input object *)
     destruct (uniform_bound E kvs fs) as [K HK].
     { intros fd Hin v Hv. apply HP. destruct (H4 fd Hin) as [Hs _]. apply Hs; exact Hv. }
@@ -350,11 +366,32 @@ Proof.
     destruct (build_nodes E kvs K fuel fs ltac:(lia)) as [fns [Ho HF]].
     { intros fd Hin. split; [intros v Hv; eapply HK; eassumption|]. destruct (H4 fd Hin) as [_ Hn]; exact Hn. }
     exists (VObject (concat fns) None); split.
-    + ksimpl. rewrite H, H0. fold (node_step E kvs fuel). rewrite Ho. reflexivity.
-    + intros eager stack f' Hf'; fuel_S f' Hf'. ksimpl. rewrite H, H0.
-      assert (Hst : eager && mem_str n stack = eager && mem_str n stack) by reflexivity.
-      admit.
-Admitted.
+    + ksimpl. rewrite H, H0.
+      transitivity (obind (omap (node_step E kvs fuel) fs) (fun fns0 => Ok (VObject (concat fns0) None)));
+        [reflexivity|rewrite Ho; reflexivity].
+    + intros eager f' Hf'; fuel_S f' Hf'. ksimpl. rewrite H, H0.
+      change (mem_str n []) with false. rewrite Bool.andb_false_r.
+      rewrite (omap_map_ok' _ (fun fd => (fd, @None pv))).
+      2:{ intros fd Hin. rewrite forallb_forall in H2. specialize (H2 fd Hin).
+          destruct (if_def fd); [reflexivity|discriminate|reflexivity]. }
+      cbn [obind].
+      rewrite (omap_map2' _ (fun fd => (fd, @None pv))
+                 (fun fd => match alookup (if_py fd) kvs with Some v => [(if_py fd, v)] | None => [] end)).
+      2:{ intros fd Hin.
+          pose proof (obj_lookup_field E kvs K fs fns H1 HF fd Hin) as Hl.
+          destruct (H4 fd Hin) as [_ Hnone].
+          destruct (alookup (if_py fd) kvs) as [x|] eqn:Hal.
+          - destruct Hl as [nx [Ho' Hcx]]. rewrite Ho'. rewrite (Hcx eager f' ltac:(lia)). reflexivity.
+          - rewrite Hl. destruct (Hnone eq_refl) as [Hd Hnn]. rewrite Hd, Hnn. reflexivity. }
+      cbn [obind]. rewrite <- flat_map_concat_map. fold (selection fs kvs). rewrite <- H3. reflexivity.
+Qed.
+
+Theorem default_roundtrip E t v : conforms E t v -> exists k, roundtrips E k t v.
+Proof.
+  intros [d Hd]. revert t v Hd. induction d as [|d IH]; intros t v Hd.
+  - apply (step_roundtrip E (fun _ _ => False)); [intros ? ? []|exact Hd].
+  - apply (step_roundtrip E (conformsN E d)); [exact IH|exact Hd].
+Qed.
 
 (* an int value of a custom scalar is printed as a FloatValue node holding the
    integer's text; that text is an integer literal, so the document the
@@ -509,4 +546,473 @@ Theorem print_pure intro spec (h1 h2 : list (popts * schema)) o sc i j :
 Proof.
   intros H1 H2.
   rewrite (map_nth_error _ _ _ H1), (map_nth_error _ _ _ H2). reflexivity.
+Qed.
+
+(* ------------------------------------------------------------------ *)
+(* descriptions: the block layout (several lines, or one long line)     *)
+
+Definition lchar (c : N) : bool := negb ((c =? 10)%N || (c =? 13)%N || (c =? 34)%N).
+
+(* a line without line terminators and double quotes that is empty or starts
+   with a non-blank character *)
+Definition clean_line (l : str) : bool :=
+  forallb lchar l && match l with c :: _ => negb (py_space c) | [] => true end.
+
+Lemma join_cons sep (x : str) xs : xs <> [] -> join sep (x :: xs) = x ++ sep ++ join sep xs.
+Proof. destruct xs; [congruence|reflexivity]. Qed.
+
+Lemma join_split_nl s : join nl (split_nl s) = s.
+Proof.
+  induction s as [|c s IH]; [reflexivity|].
+  cbn [split_nl]. destruct (split_nl s) as [|l ls] eqn:Hs; [simpl in IH; subst; reflexivity|].
+  destruct (c =? NLc)%N eqn:Hc.
+  - apply N.eqb_eq in Hc; subst c. rewrite join_cons by discriminate. rewrite IH. reflexivity.
+  - destruct ls as [|l2 ls].
+    + cbn [join] in *. subst; reflexivity.
+    + rewrite join_cons by discriminate. rewrite join_cons in IH by discriminate.
+      rewrite <- IH. reflexivity.
+Qed.
+
+Lemma split_nl_nonempty s : split_nl s <> [].
+Proof. destruct s as [|c s]; [discriminate|]. cbn [split_nl]. destruct (split_nl s); [discriminate|].
+       destruct (c =? NLc)%N; discriminate. Qed.
+
+Lemma wrapped_id lines m :
+  forallb (fun l => Nat.leb (length l) m) lines = true -> wrapped_lines lines m = lines.
+Proof.
+  unfold wrapped_lines. induction lines as [|l ls IH]; [reflexivity|]. cbn [forallb flat_map].
+  intros H; apply andb_prop in H; destruct H as [Hl Hr]. rewrite Hl, (IH Hr). reflexivity.
+Qed.
+
+Lemma lchar_plain l : forallb lchar l = true -> forallb plain_char l = true.
+Proof. intros H; exact H. Qed.
+
+Lemma unescape_noquote s : forallb (fun c => negb (c =? 34)%N) s = true -> unescape_triple s = s.
+Proof.
+  induction s as [|c s IH]; [reflexivity|].
+  intros H; cbn [forallb] in H; apply andb_prop in H; destruct H as [Hc Hs].
+  destruct s as [|c2 s2].
+  - destruct c as [|p]; [reflexivity|]. do 7 (destruct p as [p|p|]; try reflexivity).
+  - assert (Hq : c2 <> 34%N).
+    { cbn [forallb] in Hs; apply andb_prop in Hs; destruct Hs as [Hc2 _]. intros ->; discriminate. }
+    change (unescape_triple (c :: c2 :: s2)) with
+      (match c :: c2 :: s2 with
+       | 92%N :: 34%N :: 34%N :: 34%N :: r => (34 :: 34 :: 34 :: unescape_triple r)%N
+       | c' :: r => c' :: unescape_triple r
+       | [] => []
+       end).
+    destruct c as [|p]; [rewrite (IH Hs); reflexivity|].
+    do 7 (destruct p as [p|p|]; try (rewrite (IH Hs); reflexivity)).
+    destruct c2 as [|q]; [rewrite (IH Hs); reflexivity|].
+    do 6 (destruct q as [q|q|]; try (rewrite (IH Hs); reflexivity)); congruence.
+Qed.
+
+Definition nobreak (c : N) : bool := negb ((c =? 10)%N || (c =? 13)%N).
+
+Lemma split_lines_seg seg rest :
+  forallb nobreak seg = true ->
+  split_lines (seg ++ NLc :: rest) = seg :: split_lines rest.
+Proof.
+  induction seg as [|c seg IH]; intros H.
+  - reflexivity.
+  - cbn [forallb] in H; apply andb_prop in H; destruct H as [Hc Hs].
+    cbn [app]. unfold nobreak in Hc.
+    destruct (c =? 10)%N eqn:E1; [simpl in Hc; discriminate|].
+    destruct (c =? 13)%N eqn:E2; [simpl in Hc; discriminate|].
+    assert (c <> 13%N) by (apply N.eqb_neq; assumption).
+    assert (Hstep : split_lines (c :: seg ++ NLc :: rest)
+                    = match split_lines (seg ++ NLc :: rest) with l :: ls => (c :: l) :: ls | [] => [[c]] end).
+    { cbn [split_lines]. rewrite E1, E2. cbn [orb].
+      destruct c as [|p]; [reflexivity|].
+      do 4 (destruct p as [p|p|]; try reflexivity); congruence. }
+    rewrite Hstep, (IH Hs). reflexivity.
+Qed.
+
+Lemma split_lines_last seg : forallb nobreak seg = true -> split_lines seg = [seg].
+Proof.
+  induction seg as [|c seg IH]; intros H; [reflexivity|].
+  cbn [forallb] in H; apply andb_prop in H; destruct H as [Hc Hs]. unfold nobreak in Hc.
+  destruct (c =? 10)%N eqn:E1; [simpl in Hc; discriminate|].
+  destruct (c =? 13)%N eqn:E2; [simpl in Hc; discriminate|].
+  assert (c <> 13%N) by (apply N.eqb_neq; assumption).
+  assert (Hstep : split_lines (c :: seg)
+                  = match split_lines seg with l :: ls => (c :: l) :: ls | [] => [[c]] end).
+  { cbn [split_lines]. rewrite E1, E2. cbn [orb].
+    destruct c as [|p]; [reflexivity|].
+    do 4 (destruct p as [p|p|]; try reflexivity); congruence. }
+  rewrite Hstep, (IH Hs). reflexivity.
+Qed.
+
+Lemma split_lines_join segs :
+  segs <> [] -> forallb (forallb nobreak) segs = true -> split_lines (join nl segs) = segs.
+Proof.
+  induction segs as [|x xs IH]; intros Hne H; [congruence|].
+  cbn [forallb] in H; apply andb_prop in H; destruct H as [Hx Hxs].
+  destruct xs as [|y ys].
+  - simpl. apply split_lines_last; exact Hx.
+  - rewrite join_cons by discriminate.
+    change (x ++ nl ++ join nl (y :: ys)) with (x ++ NLc :: join nl (y :: ys)).
+    rewrite (split_lines_seg x _ Hx). rewrite IH; [reflexivity|discriminate|exact Hxs].
+Qed.
+
+Lemma block_lines_tail indent ls : forall i, 1 <= i ->
+  forallb (forallb lchar) ls = true ->
+  block_lines false indent i ls = map (fun l => indent ++ l) ls.
+Proof.
+  induction ls as [|l ls IH]; intros i Hi H; [reflexivity|].
+  cbn [forallb] in H; apply andb_prop in H; destruct H as [Hl Hr].
+  cbn [block_lines map]. destruct i as [|i]; [lia|]. cbn [Nat.eqb andb negb orb app].
+  rewrite (escape_triple_plain _ Hl), (IH (S (S i)) ltac:(lia) Hr). reflexivity.
+Qed.
+
+Lemma blank_app a b : blank (a ++ b) = blank a && blank b.
+Proof. unfold blank. apply forallb_app. Qed.
+
+Lemma leading_ws_indent indent l :
+  blank indent = true -> leading_ws (indent ++ l) = length indent + leading_ws l.
+Proof.
+  induction indent as [|c r IH]; intros H; [reflexivity|].
+  cbn [blank forallb] in H. apply andb_prop in H; destruct H as [Hc Hr].
+  cbn [app leading_ws length]. rewrite Hc. rewrite (IH Hr). reflexivity.
+Qed.
+
+Lemma clean_leading l : clean_line l = true -> blank l = false -> leading_ws l = 0.
+Proof.
+  unfold clean_line. intros H Hb. apply andb_prop in H; destruct H as [_ Hc].
+  destruct l as [|c r]; [discriminate|]. cbn [leading_ws].
+  destruct (is_ws c) eqn:Hw; [|reflexivity].
+  exfalso. unfold is_ws in Hw. apply Bool.negb_true_iff in Hc. unfold py_space in Hc.
+  apply Bool.orb_true_iff in Hw; destruct Hw as [Hw|Hw]; apply N.eqb_eq in Hw; subst c; discriminate.
+Qed.
+
+(* every non-blank line of [ls] is indented by exactly [n]: the common indent
+   is n as soon as one line is not blank *)
+Lemma common_indent_uniform n ls :
+  (forall l, In l ls -> blank l = false -> leading_ws l = n) ->
+  (exists l, In l ls /\ blank l = false) ->
+  common_indent ls = Some n.
+Proof.
+  induction ls as [|l ls IH]; intros Hall [l0 [Hin Hb]]; [contradiction|].
+  cbn [common_indent].
+  assert (Hrest : forall l', In l' ls -> blank l' = false -> leading_ws l' = n)
+    by (intros; apply Hall; [right|]; assumption).
+  destruct (blank l) eqn:Hbl.
+  - apply IH; [exact Hrest|]. destruct Hin as [->|Hin]; [congruence|eauto].
+  - rewrite (Hall l (or_introl eq_refl) Hbl).
+    destruct (common_indent ls) as [m|] eqn:Hc; [|reflexivity].
+    assert (Hm : m = n).
+    { clear -Hc Hrest. revert m Hc. induction ls as [|x xs IHx]; intros m Hc; [discriminate|].
+      cbn [common_indent] in Hc. destruct (blank x) eqn:Hbx.
+      - apply IHx; [intros; apply Hrest; [right|]; assumption|exact Hc].
+      - rewrite (Hrest x (or_introl eq_refl) Hbx) in Hc.
+        destruct (common_indent xs) as [m'|] eqn:Hc'; inversion Hc; subst; [|reflexivity].
+        rewrite (IHx ltac:(intros; apply Hrest; [right|]; assumption) m' eq_refl). apply Nat.min_id. }
+    subst m. rewrite Nat.min_id. reflexivity.
+Qed.
+
+Lemma skipn_app_exact (a l : str) : skipn (length a) (a ++ l) = l.
+Proof. induction a as [|c r IH]; [reflexivity|]. exact IH. Qed.
+
+Lemma skipn_indent (indent : str) (ls : list str) :
+  map (skipn (length indent)) (map (fun l => indent ++ l) ls) = ls.
+Proof.
+  induction ls as [|l ls IH]; [reflexivity|]. cbn [map].
+  rewrite IH, skipn_app_exact. reflexivity.
+Qed.
+
+Lemma blank_nil_false_of_clean l : clean_line l = true -> blank l = true -> l = [].
+Proof.
+  unfold clean_line. intros H Hb. apply andb_prop in H; destruct H as [_ Hc].
+  destruct l as [|c r]; [reflexivity|]. cbn [blank forallb] in Hb. apply andb_prop in Hb; destruct Hb as [Hw _].
+  exfalso. apply Bool.negb_true_iff in Hc. unfold is_ws in Hw. unfold py_space in Hc.
+  apply Bool.orb_true_iff in Hw; destruct Hw as [Hw|Hw]; apply N.eqb_eq in Hw; subst c; discriminate.
+Qed.
+
+Lemma drop_rev_last (L : list str) :
+  L <> [] -> blank (last L []) = false -> drop_while_blank (rev L) = rev L.
+Proof.
+  intros Hne Hb.
+  assert (H : L = removelast L ++ [last L []]) by (apply app_removelast_last; exact Hne).
+  set (a := last L []) in *. set (R := removelast L) in *. rewrite H.
+  rewrite rev_app_distr. cbn [rev app drop_while_blank]. rewrite Hb. reflexivity.
+Qed.
+
+Lemma join_snoc (xs : list str) (e : str) : xs <> [] -> join nl (xs ++ [e]) = join nl xs ++ nl ++ e.
+Proof.
+  induction xs as [|x xs IH]; intros H; [congruence|].
+  destruct xs as [|y ys]; [reflexivity|].
+  cbn [app]. rewrite join_cons by discriminate. rewrite (join_cons nl x (y :: ys)) by discriminate.
+  change ((y :: ys) ++ [e]) with (y :: ys ++ [e]) in IH. rewrite IH by discriminate.
+  rewrite <- !app_assoc. reflexivity.
+Qed.
+
+Lemma join_prefix (p a : str) (tl : list str) : join nl ((p ++ a) :: tl) = p ++ join nl (a :: tl).
+Proof. destruct tl; [reflexivity|]. rewrite !join_cons by discriminate. rewrite <- app_assoc. reflexivity. Qed.
+
+Lemma join_block (a : str) (tl : list str) (e : str) :
+  join nl ((nl ++ a) :: tl) ++ nl ++ e = join nl ([] :: (a :: tl) ++ [e]).
+Proof.
+  rewrite (join_prefix nl a tl).
+  assert (H : join nl ([] :: (a :: tl) ++ [e]) = nl ++ join nl ((a :: tl) ++ [e])) by reflexivity.
+  rewrite H. rewrite join_snoc by discriminate. rewrite <- !app_assoc. reflexivity.
+Qed.
+
+(* descriptions laid out as a block: one line of at least 70 characters, or
+   several lines; every line without double quotes, within the width, empty or
+   starting with a non-blank character; first and last line not empty; the
+   indent made of spaces and tabs *)
+Theorem description_roundtrip_block o desc depth :
+  let lines := split_nl desc in
+  let indent := ind o depth in
+  blank indent = true ->
+  forallb clean_line lines = true ->
+  forallb (fun l => Nat.leb (length l) (120 - length indent)) lines = true ->
+  hd [] lines <> [] -> last lines [] <> [] ->
+  (2 <= length lines \/ 70 <= length (hd [] lines)) ->
+  block_string_value (unescape_triple (description_body o desc depth)) = desc.
+Proof.
+  intros lines indent Hind Hclean Hlen Hfirst Hlast Hblock.
+  assert (Hchars : forallb (forallb lchar) lines = true).
+  { apply forallb_forall; intros l Hl. rewrite forallb_forall in Hclean. specialize (Hclean l Hl).
+    unfold clean_line in Hclean. apply andb_prop in Hclean; tauto. }
+  destruct lines as [|l0 rest] eqn:Hlines; [exfalso; apply (split_nl_nonempty desc); exact Hlines|].
+  cbn [hd] in Hfirst, Hblock.
+  assert (Hl0 : clean_line l0 = true) by (cbn [forallb] in Hclean; apply andb_prop in Hclean; tauto).
+  (* the printed body *)
+  assert (Hbody : description_body o desc depth
+                  = join nl ([] :: map (fun l => indent ++ l) (l0 :: rest) ++ [indent])).
+  { unfold description_body. fold indent. fold lines. rewrite Hlines.
+    rewrite (wrapped_id _ _ Hlen). cbn [hd].
+    assert (Hcond : Nat.eqb (length (l0 :: rest)) 1 && Nat.ltb (length l0) 70 && negb (ends_with_quote l0) = false).
+    { destruct Hblock as [H2|H70].
+      - destruct rest; [simpl in H2; lia|reflexivity].
+      - replace (Nat.ltb (length l0) 70) with false by (symmetry; apply Nat.ltb_ge; exact H70).
+        rewrite Bool.andb_false_r. reflexivity. }
+    rewrite Hcond.
+    assert (Hhlw : match l0 with c :: _ => py_space c | [] => false end = false).
+    { unfold clean_line in Hl0. apply andb_prop in Hl0; destruct Hl0 as [_ H]. destruct l0; [reflexivity|].
+      apply Bool.negb_true_iff in H; exact H. }
+    rewrite Hhlw. cbn [block_lines Nat.eqb andb negb orb].
+    cbn [forallb] in Hchars. apply andb_prop in Hchars; destruct Hchars as [Hc0 Hcr].
+    rewrite (escape_triple_plain _ Hc0), (block_lines_tail indent rest 1 ltac:(lia) Hcr).
+    cbn [map]. apply join_block. }
+  rewrite Hbody.
+  set (segs := [] :: map (fun l => indent ++ l) (l0 :: rest) ++ [indent]).
+  assert (Hws : forall c, is_ws c = true -> lchar c = true).
+  { intros c Hc. unfold is_ws in Hc. apply Bool.orb_true_iff in Hc; destruct Hc as [Hc|Hc];
+      apply N.eqb_eq in Hc; subst c; reflexivity. }
+  assert (Hsegs : forallb (forallb lchar) segs = true).
+  { unfold segs. cbn [forallb andb]. rewrite forallb_app. apply andb_true_intro; split.
+    - apply forallb_forall; intros x Hx. apply in_map_iff in Hx. destruct Hx as [l [<- Hl]].
+      rewrite forallb_app. apply andb_true_intro; split.
+      + apply forallb_forall; intros c Hc. apply Hws. unfold blank in Hind. rewrite forallb_forall in Hind. auto.
+      + rewrite forallb_forall in Hchars. apply Hchars; exact Hl.
+    - cbn [forallb]. rewrite Bool.andb_true_r.
+      apply forallb_forall; intros c Hc. apply Hws. unfold blank in Hind. rewrite forallb_forall in Hind. auto. }
+  assert (Hjoin : forall (p : N -> bool) (xs : list str),
+             p NLc = true -> forallb (forallb p) xs = true -> forallb p (join nl xs) = true).
+  { intros p xs Hnl. induction xs as [|x xs IHx]; intros H; [reflexivity|].
+    cbn [forallb] in H. apply andb_prop in H; destruct H as [Hx Hxs].
+    destruct xs as [|y ys]; [exact Hx|]. rewrite join_cons by discriminate.
+    rewrite !forallb_app. apply andb_true_intro; split; [exact Hx|].
+    apply andb_true_intro; split; [cbn [nl forallb]; rewrite Hnl; reflexivity|exact (IHx Hxs)]. }
+  assert (Hweak : forall (p q : N -> bool) (xs : list str), (forall c, p c = true -> q c = true) ->
+             forallb (forallb p) xs = true -> forallb (forallb q) xs = true).
+  { intros p q xs Hpq H. apply forallb_forall; intros x Hx. rewrite forallb_forall in H. specialize (H x Hx).
+    apply forallb_forall; intros c Hc. rewrite forallb_forall in H. auto. }
+  (* no double quote anywhere in the body: nothing to unescape *)
+  rewrite unescape_noquote.
+  2:{ apply Hjoin; [reflexivity|]. apply (Hweak lchar); [|exact Hsegs].
+      intros c Hc. unfold lchar in Hc. destruct (c =? 34)%N; [rewrite !Bool.orb_true_r in Hc; discriminate|reflexivity]. }
+  (* the lines the lexer sees *)
+  unfold block_string_value. rewrite split_lines_join.
+  2:{ discriminate. }
+  2:{ apply (Hweak lchar); [|exact Hsegs]. intros c Hc. unfold lchar in Hc. unfold nobreak.
+      destruct ((c =? 10)%N || (c =? 13)%N); [discriminate|reflexivity]. }
+  unfold segs.
+  assert (Hl0b : blank l0 = false).
+  { destruct (blank l0) eqn:Hb; [|reflexivity]. exfalso; apply Hfirst. apply blank_nil_false_of_clean; assumption. }
+  rewrite (common_indent_uniform (length indent)).
+  2:{ intros l Hl Hb. apply in_app_or in Hl. destruct Hl as [Hl|[<-|[]]]; [|congruence].
+      apply in_map_iff in Hl. destruct Hl as [x [<- Hx]].
+      rewrite blank_app, Hind in Hb. cbn [andb] in Hb.
+      rewrite (leading_ws_indent _ _ Hind). rewrite forallb_forall in Hclean.
+      rewrite (clean_leading x (Hclean x Hx) Hb). lia. }
+  2:{ exists (indent ++ l0). split; [apply in_or_app; left; left; reflexivity|].
+      rewrite blank_app, Hind, Hl0b. reflexivity. }
+  rewrite map_app, skipn_indent. cbn [map].
+  replace (skipn (length indent) indent) with (@nil char)
+    by (symmetry; rewrite <- (app_nil_r indent) at 2; apply skipn_app_exact).
+  cbn [drop_while_blank blank forallb app]. rewrite Hl0b.
+  change (l0 :: rest ++ [[]]) with ((l0 :: rest) ++ [[]]). rewrite rev_app_distr. cbn [rev app].
+  cbn [drop_while_blank blank forallb].
+  assert (Hrev : drop_while_blank (rev (l0 :: rest)) = rev (l0 :: rest)).
+  { apply drop_rev_last; [discriminate|].
+    destruct (blank (last (l0 :: rest) [])) eqn:Hb; [|reflexivity].
+    exfalso; apply Hlast. apply blank_nil_false_of_clean; [|exact Hb].
+    rewrite forallb_forall in Hclean. apply Hclean.
+    assert (Hne : l0 :: rest <> []) by discriminate.
+    rewrite (app_removelast_last [] Hne) at 2. apply in_or_app; right; left; reflexivity. }
+  cbn [rev] in Hrev. rewrite Hrev. change (rev rest ++ [l0]) with (rev (l0 :: rest)).
+  rewrite rev_involutive. rewrite <- Hlines. unfold lines. apply join_split_nl.
+Qed.
+
+(* ------------------------------------------------------------------ *)
+(* members: what the printed definition of a type declares              *)
+
+Lemma desc_roundtrip d : nonempty_desc d = true -> desc_of (strval_of d) = d.
+Proof. destruct d as [[|c r]|]; simpl; try discriminate; reflexivity. Qed.
+
+Lemma custom_dirs_idem ds : custom_dirs (custom_dirs ds) = custom_dirs ds.
+Proof.
+  unfold custom_dirs. induction ds as [|d ds IH]; [reflexivity|]. cbn [filter].
+  destruct (negb (mem_str (n_val (d_name d)) specified_directive_names)) eqn:H; [|exact IH].
+  cbn [filter]. rewrite H, IH. reflexivity.
+Qed.
+
+Lemma custom_dirs_deprecated dep ds : custom_dirs (deprecated_dir dep ++ custom_dirs ds) = custom_dirs ds.
+Proof.
+  destruct dep as [r|]; [|apply custom_dirs_idem].
+  unfold deprecated_dir. cbn [app]. unfold custom_dirs at 1. cbn [filter d_name mk_name n_val].
+  change (mem_str (S_ "deprecated") specified_directive_names) with true. cbn [negb].
+  apply custom_dirs_idem.
+Qed.
+
+Lemma omap_inv {A B} (f : A -> outcome B) l r :
+  omap f l = Ok r -> Forall2 (fun x y => f x = Ok y) l r.
+Proof.
+  revert r; induction l as [|x l IH]; intros r H; simpl in H.
+  - inversion H; constructor.
+  - destruct (f x) as [y| | |] eqn:Hx; simpl in H; try discriminate.
+    destruct (omap f l) as [ys| | |] eqn:Hl; simpl in H; try discriminate.
+    inversion H; subst. constructor; [exact Hx|apply IH; reflexivity].
+Qed.
+
+Section KindRoundtrip.
+  Variables (Ep E : env).
+
+  (* the printed literal of the default coerces back, at the declared type *)
+  Definition default_rt (a : sivalue) : Prop :=
+    forall v n, siv_default a = Some v ->
+      node_of_value print_fuel Ep v (siv_type a) = Ok n ->
+      coerce spec_fuel false E [] (siv_type a) (relex n) = Ok v.
+
+  Lemma ivalue_rt a iv :
+    siv_sdl a = true -> ivdef_of Ep a = Ok iv -> default_rt a ->
+    strip_siv (decl_ivalue E iv) = strip_siv a.
+  Proof.
+    unfold siv_sdl, ivdef_of, default_rt. intros Hs Hi Hd.
+    apply andb_prop in Hs; destruct Hs as [Hs _]. apply andb_prop in Hs; destruct Hs as [Hpy Hdesc].
+    apply str_eqb_eq in Hpy.
+    destruct (siv_default a) as [v|] eqn:Hdef.
+    - destruct (node_of_value print_fuel Ep v (siv_type a)) as [n| | |] eqn:Hn; simpl in Hi; try discriminate.
+      inversion Hi; subst iv; clear Hi.
+      unfold decl_ivalue, strip_siv, decl_default;
+        cbn [iv_name iv_type iv_default iv_desc iv_dirs mk_name n_val siv_name siv_py siv_type siv_default siv_desc siv_dirs].
+      rewrite tref_roundtrip, (Hd v n eq_refl Hn), Hdef, Hpy, custom_dirs_idem.
+      rewrite desc_roundtrip by (unfold nonempty_desc; exact Hdesc). reflexivity.
+    - simpl in Hi. inversion Hi; subst iv; clear Hi.
+      unfold decl_ivalue, strip_siv, decl_default;
+        cbn [iv_name iv_type iv_default iv_desc iv_dirs mk_name n_val siv_name siv_py siv_type siv_default siv_desc siv_dirs].
+      rewrite tref_roundtrip, Hdef, Hpy, custom_dirs_idem.
+      rewrite desc_roundtrip by (unfold nonempty_desc; exact Hdesc). reflexivity.
+  Qed.
+
+  Lemma ivalues_rt l ivs :
+    forallb siv_sdl l = true -> omap (ivdef_of Ep) l = Ok ivs -> (forall a, In a l -> default_rt a) ->
+    map strip_siv (map (decl_ivalue E) ivs) = map strip_siv l.
+  Proof.
+    intros Hs Ho Hd. apply omap_inv in Ho. induction Ho as [|a iv l ivs Hiv Hrest IH]; [reflexivity|].
+    cbn [forallb] in Hs. apply andb_prop in Hs; destruct Hs as [Ha Hl].
+    cbn [map]. rewrite (ivalue_rt a iv Ha Hiv (Hd a (or_introl eq_refl))).
+    rewrite IH; [reflexivity|exact Hl|intros; apply Hd; right; assumption].
+  Qed.
+
+  Lemma field_rt f fd :
+    sf_sdl f = true -> fdef_of Ep f = Ok fd -> (forall a, In a (sf_args f) -> default_rt a) ->
+    strip_sf (decl_field E fd) = strip_sf f.
+  Proof.
+    unfold sf_sdl, fdef_of. intros Hs Hf Hd.
+    apply andb_prop in Hs; destruct Hs as [Hs Hdesc]. apply andb_prop in Hs; destruct Hs as [Hpy Hargs].
+    apply str_eqb_eq in Hpy.
+    destruct (omap (ivdef_of Ep) (sf_args f)) as [ivs| | |] eqn:Ho; simpl in Hf; try discriminate.
+    inversion Hf; subst fd; clear Hf.
+    unfold decl_field, strip_sf;
+      cbn [fd_name fd_args fd_type fd_desc fd_dirs mk_name n_val sf_name sf_py sf_args sf_type sf_desc sf_dep sf_dirs].
+    rewrite (ivalues_rt _ _ Hargs Ho Hd), tref_roundtrip, Hpy.
+    unfold decl_dep. rewrite deprecation_roundtrip, custom_dirs_deprecated.
+    rewrite desc_roundtrip by (unfold nonempty_desc; exact Hdesc). reflexivity.
+  Qed.
+
+  Lemma fields_rt l fds :
+    forallb sf_sdl l = true -> omap (fdef_of Ep) l = Ok fds ->
+    (forall f, In f l -> forall a, In a (sf_args f) -> default_rt a) ->
+    map strip_sf (map (decl_field E) fds) = map strip_sf l.
+  Proof.
+    intros Hs Ho Hd. apply omap_inv in Ho. induction Ho as [|f fd l fds Hfd Hrest IH]; [reflexivity|].
+    cbn [forallb] in Hs. apply andb_prop in Hs; destruct Hs as [Hf Hl].
+    cbn [map]. rewrite (field_rt f fd Hf Hfd (Hd f (or_introl eq_refl))).
+    rewrite IH; [reflexivity|exact Hl|intros; eapply Hd; [right; eassumption|eassumption]].
+  Qed.
+
+  Definition tdef_ivalues (t : tdef) : list sivalue :=
+    match t with
+    | TObject _ _ _ fs _ | TInterface _ _ fs _ => flat_map sf_args fs
+    | TInput _ _ fs _ => fs
+    | _ => []
+    end.
+
+  (* every kind: the definition the printer emits for a type declares that
+     type (modulo applied directives named like specified ones) *)
+  Theorem kind_roundtrip t d :
+    tdef_sdl t = true -> def_of_tdef Ep t = Ok d ->
+    (forall a, In a (tdef_ivalues t) -> default_rt a) ->
+    map strip_tdef (decl_type E d) = [strip_tdef t].
+  Proof.
+    unfold tdef_sdl. intros Hs Hdef Hd. apply andb_prop in Hs; destruct Hs as [Hdesc Hs].
+    destruct t as [n de ds|n de is_ fs ds|n de fs ds|n de ms ds|n de vs ds|n de fs ds];
+      cbn [tdef_desc def_of_tdef] in *.
+    - inversion Hdef; subst d. cbn [decl_type map strip_tdef mk_name n_val].
+      rewrite desc_roundtrip, custom_dirs_idem by exact Hdesc. reflexivity.
+    - destruct (omap (fdef_of Ep) fs) as [fds| | |] eqn:Ho; simpl in Hdef; try discriminate.
+      inversion Hdef; subst d. cbn [decl_type map strip_tdef mk_name n_val].
+      rewrite (fields_rt fs fds Hs Ho), desc_roundtrip, custom_dirs_idem by
+        first [exact Hdesc | intros f Hf a Ha; apply Hd; cbn [tdef_ivalues]; apply in_flat_map; eauto].
+      rewrite map_map. cbn [ty_name tref_of named_ty tref_name mk_name n_val]. rewrite map_id. reflexivity.
+    - destruct (omap (fdef_of Ep) fs) as [fds| | |] eqn:Ho; simpl in Hdef; try discriminate.
+      inversion Hdef; subst d. cbn [decl_type map strip_tdef mk_name n_val].
+      rewrite (fields_rt fs fds Hs Ho), desc_roundtrip, custom_dirs_idem by
+        first [exact Hdesc | intros f Hf a Ha; apply Hd; cbn [tdef_ivalues]; apply in_flat_map; eauto].
+      reflexivity.
+    - inversion Hdef; subst d. cbn [decl_type map strip_tdef mk_name n_val].
+      rewrite desc_roundtrip, custom_dirs_idem by exact Hdesc.
+      rewrite map_map. cbn [ty_name tref_of named_ty tref_name mk_name n_val]. rewrite map_id. reflexivity.
+    - inversion Hdef; subst d. cbn [decl_type map strip_tdef mk_name n_val].
+      rewrite desc_roundtrip, custom_dirs_idem by exact Hdesc. f_equal. f_equal.
+      rewrite !map_map. apply map_ext_in. intros v Hv.
+      rewrite forallb_forall in Hs. specialize (Hs v Hv).
+      apply andb_prop in Hs; destruct Hs as [Hval Hvd].
+      unfold decl_value, evdef_of, strip_sev; cbn [ev_name ev_desc ev_dirs mk_name n_val sev_name sev_value sev_desc sev_dep sev_dirs].
+      unfold decl_dep. rewrite deprecation_roundtrip, custom_dirs_deprecated, desc_roundtrip by exact Hvd.
+      destruct (sev_value v); try discriminate. cbn [pv_eqb] in Hval. apply str_eqb_eq in Hval; subst. reflexivity.
+    - destruct (omap (ivdef_of Ep) fs) as [ivs| | |] eqn:Ho; simpl in Hdef; try discriminate.
+      inversion Hdef; subst d. cbn [decl_type map strip_tdef mk_name n_val].
+      rewrite (ivalues_rt fs ivs Hs Ho), desc_roundtrip, custom_dirs_idem by
+        first [exact Hdesc | intros a Ha; apply Hd; exact Ha].
+      reflexivity.
+  Qed.
+End KindRoundtrip.
+
+Theorem directive_roundtrip Ep E dd d :
+  forallb siv_sdl (dd_args dd) = true -> nonempty_desc (dd_desc dd) = true ->
+  def_of_ddef Ep dd = Ok d -> (forall a, In a (dd_args dd) -> default_rt Ep E a) ->
+  decl_directive E d
+  = [DD (dd_name dd) (dd_desc dd) (dd_locs dd) (map (decl_ivalue E) (match d with DDirective _ _ args _ _ => args | _ => [] end))]
+  /\ map strip_siv (match decl_directive E d with [x] => dd_args x | _ => [] end) = map strip_siv (dd_args dd).
+Proof.
+  unfold def_of_ddef. intros Hs Hdesc Hdef Hd.
+  destruct (omap (ivdef_of Ep) (dd_args dd)) as [ivs| | |] eqn:Ho; simpl in Hdef; try discriminate.
+  inversion Hdef; subst d. cbn [decl_directive mk_name n_val dd_args].
+  rewrite desc_roundtrip by exact Hdesc. rewrite map_map. cbn [n_val mk_name]. rewrite map_id.
+  split; [reflexivity|]. apply (ivalues_rt Ep E _ _ Hs Ho Hd).
 Qed.
